@@ -178,7 +178,7 @@ func c02Case(r *obs.Run, i int) {
 				if len(data) > 200 && b > 2 && b < len(data)-1 && rng.Intn(len(data)/40) != 0 {
 					continue
 				}
-				lw := &limitWriter{budget: b}
+				lw := &limitWriter{budget: b, eager: rng.Intn(2) == 0}
 				fbw, _ := bed.NewWriter(lw, m)
 				sawErr := false
 				for k, f := range recs {
@@ -515,7 +515,7 @@ func c02Case(r *obs.Run, i int) {
 			}
 		}
 		for _, b := range budgets {
-			lw := &limitWriter{budget: b}
+			lw := &limitWriter{budget: b, eager: rng.Intn(2) == 0}
 			fgw := gff.NewWriter(lw, width, header)
 			sawErr := false
 			for k, op := range ops {
